@@ -437,9 +437,9 @@ class Engine(Interp):
         if isinstance(idx, Undefined):
             raise UndefinedUse('use of an undefined value')
         if isinstance(obj, Guarded):
-            return self.dist(obj, lambda v: self.container_get(v, idx, pc))
+            return self.dist_pc(obj, pc, lambda v, p: self.container_get(v, idx, p))
         if isinstance(idx, Guarded):
-            return self.dist(idx, lambda v: self.container_get(obj, v, pc))
+            return self.dist_pc(idx, pc, lambda v, p: self.container_get(obj, v, p))
         if isinstance(obj, SBytes):
             if self.is_sym(idx):
                 raise Unsupported("symbolic index into bytes")
@@ -638,7 +638,10 @@ class Engine(Interp):
         if isinstance(item, Undefined):
             raise UndefinedUse('use of an undefined value')
         if isinstance(container, Guarded):
-            return self._boolify(self.dist(container, lambda v: self._lb(self.contains(v, item, pc))))
+            return self._boolify(self.dist_pc(container, pc, lambda v, p: self._lb(self.contains(v, item, p))))
+        if container is None:
+            self.raises.append((pc, TypeError))
+            return False
         if isinstance(container, SDict):
             return self.sdict_lookup(container, item, pc)[0]
         if isinstance(container, SList):
